@@ -223,7 +223,8 @@ def run(ctx):
                 'rational/decimal intervals, random a<b over 1e-6..1e6; queries: random open knot vectors p<=6, <=8 spans, dyadic spans with ratios '
                 'up to 2^40 / eighths / arbitrary doubles, interior multiplicities 1..p; findspan at every breakpoint, its two adjacent doubles, '
                 'midpoints, random points; refine with random new knots and uniform; __eq__ on perturbed copies incl. a directed search for an '
-                'asymmetric pair; Spline.derivative.  non-trivial = at least 2 spans.' % (400 if quick else 2000))
+                'asymmetric pair; Spline.derivative; call histories (refine()/copy() reuse of KnotVector caches, Spline.derivative() after in-place and '
+                'rebinding coefficient changes), each answer against the model of the current data.  non-trivial = at least 2 spans.' % (400 if quick else 2000))
 
     # ------------------------------------------------------------------ make_knots
     S = Stream(ctx, 'drv_c19')
@@ -449,6 +450,123 @@ def run(ctx):
                       {'kv': k.tolist(), 'p': p, 'coeffs': c.tolist()})
             ctx.count('Spline.derivative cases')
     ctx.sample({'queries': S.req[-3][:200]})
+
+    # ------------------------------------------------------------------ call histories (caching / aliasing)
+    # construct, query, mutate, query again: every answer of the long-lived object is compared with the model evaluated on the
+    # CURRENT data (= what a fresh object built from the current data must answer)
+    def q_line(KVo):
+        pp = KVo.p
+        msia = KVo.mesh_support_idx_all()
+        msi = KVo.mesh_span_indices()
+        supp = [KVo.mesh_support_idx(j) for j in range(KVo.numdofs)]
+        return 'mesh=%s k2m=%s spans=%d dofs=%d msia=%s msi=%s supp=%s' % (
+            plist(KVo.mesh, frac), plist(KVo._knots_to_mesh.tolist()), KVo.numspans, KVo.numdofs,
+            plist(msia.tolist(), lambda e: '%d,%d' % tuple(e)), plist(msi.tolist()),
+            plist(supp, lambda e: '%d,%d' % (int(e[0]), int(e[1]))))
+
+    def fresh_q_oracle(karr, pp, got_line, step):
+        karr = np.array(karr, dtype=float)
+        def f():
+            want = q_line(bspline.KnotVector(karr.copy(), pp))
+            if want != got_line:
+                return 'history step `%s`: the long-lived KnotVector answers differently from a fresh KnotVector built from the current knots' % step
+            return None
+        return f
+
+    def hist_q(KVo, step, hist):
+        karr = np.array(KVo.kv, dtype=float)
+        try:
+            line = q_line(KVo)
+        except AssertionError:
+            line = 'err-assertion'
+        except Exception as ex:
+            line = 'err-' + type(ex).__name__
+        S.add('q %d %s' % (KVo.p, plist(karr, frac)), line, 'kv-history', fresh_q_oracle(karr, KVo.p, line, step),
+              {'history': hist, 'step': step, 'kv': karr.tolist(), 'p': KVo.p})
+        ctx.count('history: KnotVector queries')
+
+    def hist_spline(sp, KVo, usd, step, hist):
+        cur = np.array(sp.coeffs, dtype=float)          # the coefficients the spline has NOW
+        karr = np.array(KVo.kv, dtype=float); pp = KVo.p
+        try:
+            d = sp.derivative()
+            dco = np.array(d.coeffs, dtype=float); dkv = np.array(d.kv.kv, dtype=float); dp = d.kv.p
+            line = 'kv=%s p=%d vals=ok ident=ok' % (plist(dkv, frac), dp)
+            reqline = 'dspl %d %s %s %s %s' % (pp, plist(karr, frac), plist(cur, frac), plist(dco, frac), plist(usd, frac))
+        except Exception as ex:
+            dco = None
+            line = 'err-' + type(ex).__name__
+            reqline = 'dspl %d %s %s 0 0' % (pp, plist(karr, frac), plist(cur, frac))
+
+        def orc():
+            fr = spline.Spline(bspline.KnotVector(karr.copy(), pp), cur.copy()).derivative()
+            if dco is None or not np.array_equal(np.asarray(fr.coeffs, dtype=float), dco):
+                x = np.linspace(karr[0], karr[-1], 23)[1:-1]
+                x = x[~np.isin(x, karr)]
+                return ('history step `%s`: derivative() of the long-lived Spline is not the derivative of its current coefficients '
+                        '(fresh object: %s, long-lived: %s; deriv() at %r = %r)' % (step, np.asarray(fr.coeffs)[:4].tolist(),
+                        None if dco is None else dco[:4].tolist(), float(x[0]), float(sp.__class__(bspline.KnotVector(karr.copy(), pp), cur.copy()).deriv(x[:1])[0])))
+            return None
+        S.add(reqline, line, 'spline-history', orc, {'history': hist, 'step': step, 'kv': karr.tolist(), 'p': pp, 'coeffs': cur.tolist()})
+        ctx.count('history: Spline.derivative queries')
+
+    nhist = 120 if quick else 1500
+    stale_obs = 0
+    for (k, p, style) in [e for e in kvs if e[2] != 'make_knots'][:nhist]:
+        mesh = np.unique(k)
+        # --- KnotVector: refine / copy reuse
+        K0 = bspline.KnotVector(k.copy(), p)
+        order = int(rng.integers(0, 3))
+        if order == 1:
+            _ = K0.numspans
+        elif order == 2:
+            _ = K0.findspan(float(mesh[0]))
+        hist_q(K0, 'construct', 'refine-reuse')
+        newk = rng.uniform(mesh[0], mesh[-1], size=int(rng.integers(1, 4)))
+        R = K0.refine(newk)
+        hist_q(K0, 'original after refine(new)', 'refine-reuse')
+        hist_q(R, 'refined', 'refine-reuse')
+        R2 = R.refine()
+        hist_q(R, 'refined after its own uniform refine()', 'refine-reuse')
+        hist_q(R2, 'twice refined', 'refine-reuse')
+        C = K0.copy()
+        if len(mesh) >= 3:
+            # edit the copy's knots in place BEFORE its first query: shift all interior knots by a fraction of the smallest span
+            hmin = float(np.min(np.diff(mesh)))
+            inner = (C.kv > mesh[0]) & (C.kv < mesh[-1])
+            C.kv[inner] += hmin / 4
+        hist_q(C, 'copy edited before its first query', 'copy-reuse')
+        hist_q(K0, 'original after its copy was edited', 'copy-reuse')
+        # observation only (not part of the property: pyiga never edits a knot array in place): caches after an in-place edit
+        if len(mesh) >= 3:
+            K1 = bspline.KnotVector(k.copy(), p)
+            _ = K1.mesh
+            K1.kv[(K1.kv > mesh[0]) & (K1.kv < mesh[-1])] += float(np.min(np.diff(mesh))) / 4
+            try:
+                if q_line(K1) != q_line(bspline.KnotVector(K1.kv.copy(), p)):
+                    stale_obs += 1
+            except Exception:
+                stale_obs += 1
+        # --- Spline: in-place and rebinding coefficient changes
+        if p >= 1:
+            KVh = bspline.KnotVector(k.copy(), p)
+            usd = points_for(rng, k, p, nrand=2)[:8]
+            carr = rng.integers(-8, 9, size=KVh.numdofs).astype(float)
+            sp = spline.Spline(KVh, carr)
+            hist_spline(sp, KVh, usd, 'construct', 'coeff-mutation')
+            hist_spline(sp, KVh, usd, 'derivative() called again', 'coeff-mutation')
+            carr[:] = rng.integers(-8, 9, size=KVh.numdofs).astype(float)        # through the array shared with the caller
+            hist_spline(sp, KVh, usd, 'coefficients edited in place through the shared array', 'coeff-mutation')
+            sp.coeffs[int(rng.integers(0, KVh.numdofs))] += 3.0
+            hist_spline(sp, KVh, usd, 'one coefficient edited in place via s.coeffs[i]', 'coeff-mutation')
+            sp.coeffs = rng.normal(size=KVh.numdofs)
+            hist_spline(sp, KVh, usd, 's.coeffs rebound to a new array', 'coeff-mutation')
+            sp.coeffs = sp.coeffs * 2.0
+            hist_spline(sp, KVh, usd, 's.coeffs rebound again', 'coeff-mutation')
+        ctx.count('histories')
+    ctx.extra['observation_stale_mesh_cache_after_inplace_knot_edit'] = (
+        '%d of %d knot vectors: KnotVector does not invalidate _mesh/_knots_to_mesh when kv.kv is edited in place after a query '
+        '(design observation, not a violation: no pyiga code edits a knot array in place)' % (stale_obs, nhist))
 
     # ------------------------------------------------------------------ __eq__
     asym = None
